@@ -243,25 +243,89 @@ func helperOfAllowed(r *Run, name string, allowed map[string]bool, prefixes []st
 	return n > 0 && !isExported(fn)
 }
 
+// ruleGoSites: every go statement sits in a listed function (goSites) and within that
+// function's budget. A go statement in an unexported helper that is only ever called — directly
+// or through other such helpers — from one listed function counts as a statement of that
+// function: moving a `case` body of the handler into a method of the same package starts the
+// same goroutines under the same conditions.
 func ruleGoSites(r *Run) {
-	count := map[string]int{}
-	for _, fn := range r.P.Funcs {
-		top := fn
-		for top.Parent() != nil {
-			top = top.Parent()
+	type site struct {
+		g     *ssa.Go
+		fn    *ssa.Function
+		owner string
+		via   string
+	}
+	// ownerOf: the listed function on whose behalf top runs, "" when there is none or several
+	var ownersOf func(top *ssa.Function, depth int, seen map[*ssa.Function]bool) map[string]bool
+	ownersOf = func(top *ssa.Function, depth int, seen map[*ssa.Function]bool) map[string]bool {
+		out := map[string]bool{}
+		if _, listed := goSites[fnName(top)]; listed {
+			out[fnName(top)] = true
+			return out
 		}
-		for _, ins := range allInstrs(fn) {
-			if g, ok := ins.(*ssa.Go); ok {
-				name := fnName(top)
-				count[name]++
-				e, listed := goSites[name]
-				if listed && count[name] <= e.N {
-					r.Tabled("R4a.go", fnName(fn), fmt.Sprintf("go statement %d of %s", count[name], name), r.P.pos(g.Pos()), "goSites", e.Reason)
-				} else {
-					r.Bad("R4a.go", fnName(fn), fmt.Sprintf("go statement %d of %s", count[name], name), r.P.pos(g.Pos()),
-						"new goroutine spawn site: concurrency outside AsyncMapReduce and the subscription goroutines is not covered by the ordering/independence arguments (R1, R8, R9b)")
+		if depth > 3 || seen[top] || isExported(top) {
+			out["?"] = true
+			return out
+		}
+		seen[top] = true
+		n := 0
+		for _, f := range withClosures(top) {
+			for _, e := range r.P.CG.In[f] {
+				if topFn(e.Caller) == top || e.Kind == "param" {
+					continue
+				}
+				n++
+				if e.Kind != "static" || topFn(e.Caller).Pkg != top.Pkg {
+					out["?"] = true
+					continue
+				}
+				for o := range ownersOf(topFn(e.Caller), depth+1, seen) {
+					out[o] = true
 				}
 			}
+		}
+		if n == 0 {
+			out["?"] = true
+		}
+		return out
+	}
+	var sites []site
+	for _, fn := range r.P.Funcs {
+		top := topFn(fn)
+		for _, ins := range allInstrs(fn) {
+			g, ok := ins.(*ssa.Go)
+			if !ok {
+				continue
+			}
+			s := site{g: g, fn: fn, owner: fnName(top)}
+			if _, listed := goSites[s.owner]; !listed {
+				os := ownersOf(top, 0, map[*ssa.Function]bool{})
+				if len(os) == 1 && !os["?"] {
+					for o := range os {
+						s.owner, s.via = o, fnName(top)
+					}
+				}
+			}
+			sites = append(sites, s)
+		}
+	}
+	// statements of the listed function itself first, then those of its helpers
+	sort.SliceStable(sites, func(i, j int) bool { return sites[i].via == "" && sites[j].via != "" })
+	count := map[string]int{}
+	for _, s := range sites {
+		name := s.owner
+		count[name]++
+		e, listed := goSites[name]
+		what := fmt.Sprintf("go statement %d of %s", count[name], name)
+		if listed && count[name] <= e.N {
+			reason := e.Reason
+			if s.via != "" {
+				reason = "in " + s.via + ", a helper called only on behalf of " + name + " — " + reason
+			}
+			r.Tabled("R4a.go", fnName(s.fn), what, r.P.pos(s.g.Pos()), "goSites", reason)
+		} else {
+			r.Bad("R4a.go", fnName(s.fn), what, r.P.pos(s.g.Pos()),
+				"new goroutine spawn site: concurrency outside AsyncMapReduce and the subscription goroutines is not covered by the ordering/independence arguments (R1, R8, R9b)")
 		}
 	}
 	n := 0
